@@ -482,11 +482,16 @@ func (p *prog) navigate(loc byte) {
 	switch {
 	case pi.bit:
 		p.do(fmt.Sprintf("bitat:%d:%d", h, i))
-	case pi.comp || (pi.pc > 0 && r.Intn(3) == 0):
-		if r.Intn(3) == 0 {
+	case pi.comp || (pi.pc > 0 && r.Intn(3) == 0) || r.Intn(4) == 0:
+		// List.Struct(i) also of primitive lists (element = struct with a 1/2/4/8-byte data
+		// section, a list member) and of pointer lists: sources of copies
+		if r.Intn(3) == 0 && (pi.comp || pi.pc > 0) {
 			p.do(fmt.Sprintf("plat:%d:%d", h, i))
 		} else {
 			p.do(fmt.Sprintf("lstruct:%d:%d", h, i))
+			if pi.dsz%8 != 0 {
+				p.st.oddMembers++
+			}
 		}
 	case pi.pc > 0:
 		p.do(fmt.Sprintf("plat:%d:%d", h, i))
